@@ -9,7 +9,7 @@ from . import odswriter
 
 UTC = dt.timezone.utc
 
-ASSET_POOL = ["BTC", "ETH", "DOGE", "USDC", "LUNA2", "1INCH", "xrp", "DOT", "B_1", "Sol"]
+ASSET_POOL = ["BTC", "ETH", "DOGE", "USDC", "LUNA2", "1INCH", "xrp", "DOT", "B_1", "Sol", "USDC.e", "W BTC", "LUNA-2"]
 EXCHANGE_POOL = ["Coinbase", "Coinbase Pro", "BlockFi", "Kraken", "Ledger-Nano", "binance.us", "Trezor One"]
 HOLDER_POOL = ["Alice", "Bob", "Chärlie", "D. Trader"]
 # names that differ only in case, or whose "<exchange>_<holder>" concatenations coincide: distinct accounts with colliding derived keys
@@ -102,6 +102,9 @@ def _amount(rng, style, lo=Decimal("0.00000001"), hi=Decimal("50")):
         # whale-sized holdings of micro-priced tokens: integers up to 9e12 (exactly representable, exactly rendered by %.11f)
         v = Decimal(rng.randint(1, 9000)) * Decimal(10) ** rng.choice([6, 8, 9, 9])
         return max(lo, v)
+    if style == "dec11":
+        v = Decimal(rng.randint(1, 5_000_000_000_000)) / Decimal(10**11)
+        return max(lo, min(hi, v))
     if style == "int":
         v = Decimal(rng.randint(1, 40))
     elif style == "dec2":
@@ -134,6 +137,10 @@ def _frac(rng, total, style):
         return total
     if style == "big" and total >= 1000:
         return (total * rng.randint(1, 999) / 1000).to_integral_value()
+    if style == "dec11":
+        q = Decimal(10) ** -11
+        if total <= q:
+            return total
     if style == "int" and total >= 2:
         return Decimal(rng.randint(1, int(total) - (1 if total == int(total) else 0) or 1))
     part = (total * Decimal(rng.randint(1, 999)) / 1000).quantize(q)
@@ -146,7 +153,7 @@ def _frac(rng, total, style):
 
 def gen_asset_rows(rng, asset, exchanges, holders, flags, start_year):
     """Rows for one asset in chronological (instant) order. Returns list of (table, row)."""
-    style = flags.get("amount_style") or rng.choice(["int", "dec2", "dec8", "mixed", "mixed"])
+    style = flags.get("amount_style") or rng.choice(["int", "dec2", "dec8", "mixed", "mixed", "dec11"])
     if flags.get("whales") and rng.random() < 0.5:
         style = "big"
     n = flags.get("n_rows") or rng.choice([1, 2, 3, 4, 5, 6, 8, 10, 12, 16, 20, 25])
@@ -270,6 +277,9 @@ def gen_asset_rows(rng, asset, exchanges, holders, flags, start_year):
         if not force_type and flags.get("out_focus") and rng.random() < 0.9:
             ttype = rng.choice(flags["out_focus"])
         total = b if (everything or rng.random() < 0.2) else _frac(rng, b, style)
+        if flags.get("dust") and rng.random() < 0.5 and b > Decimal("0.00000001"):
+            # sell all but dust: what is left is positive at 11 decimals and nothing at 10 (or at 8)
+            total = b - rng.choice([Decimal("0.00000000001"), Decimal("0.00000000004"), Decimal("0.000000001")])
         price = price_of()
         if ttype == "FEE":
             no_fee, fee = Decimal(0), total
@@ -338,7 +348,7 @@ def gen_asset_rows(rng, asset, exchanges, holders, flags, start_year):
             add_intra()
     if flags.get("sell_all"):
         for a in positive_accounts():
-            add_out(account=a, everything=True, force_type=rng.choice(["SELL", "SELL", "GIFT", "LOST"]))
+            add_out(account=a, everything=not flags.get("dust"), force_type=rng.choice(["SELL", "SELL", "GIFT", "LOST"]))
     return rows
 
 
